@@ -80,7 +80,7 @@ KtQuery(qo, ev, rbags, k, sparse) ==
                                   THEN KsExact(qs, KtChars(ev.refs[i])) ELSE [where |-> "none", rev |-> 0, len |-> 0]]
            has(i) == \E h \in 1..Len(qo.outs) :
                         LET ot == qo.outs[h] IN ot.mid = i /\ ot.rev = ex[i].rev /\ ot.ident1 = 1 /\ ot.alen = ex[i].len
-           missing(w) == \E i \in 1..n : ex[i].where = w /\ ex[i].len > k /\ ~has(i)
+           missing(w) == \E i \in 1..n : ex[i].where = w /\ ex[i].len > k /\ ex[i].len >= KsMinOverlap /\ ~has(i)
        IN IF Cardinality(mcs) > 1 THEN <<"bad:match_count", 0, FALSE>>
           ELSE IF j = 0 THEN <<"bad:match_count", 0, FALSE>>
           ELSE IF \E h \in 1..Len(qo.outs) : qo.outs[h].mid \notin allowed THEN <<"bad:match_id", 0, FALSE>>
